@@ -44,6 +44,7 @@ var perProp = map[string][]rule{
 		{kind: "points", target: "gcetcbendorsement/tdxpolicy.go"},
 	},
 	"C13": {{kind: "export", target: "endorse_export.go", dest: "endorse/zz_verif_export.go"}},
+	"C17": {rpcmdExport},
 	"C16": {{kind: "export", target: "endorse_export.go", dest: "endorse/zz_verif_export.go"}, rpcmdExport},
 	"C20": {
 		{kind: "clock", target: "keys/gcpkms"},
